@@ -49,6 +49,16 @@ func ethKeyOf(a *Actor) ([]byte, string) {
 // sidOf returns the sid DID the actor's cosmos account is bound to ("" if none).
 func (e *Env) sidOf(a *Actor) string { return e.Cur.Did.Dids[cosmosAccountId(a)] }
 
+// listedIn: the account of a is in the account list of the sid DID did.
+func (e *Env) listedIn(a *Actor, did string) bool {
+	for _, ad := range e.Cur.Did.AccountLists[did] {
+		if e.Cur.Did.AccountIds[ad] == cosmosAccountId(a) {
+			return true
+		}
+	}
+	return false
+}
+
 func (e *Env) buildDid(op *Op, a *Actor) (*Built, string) {
 	s := e.Cur
 	now := e.Blk.Time.Unix()
